@@ -1,16 +1,57 @@
 package main
 
 import (
+	"crypto/sha1"
 	"fmt"
 	"io"
 	"os"
 
+	"github.com/ysugimoto/falco/v2/ast/codec"
 	"github.com/ysugimoto/falco/v2/lexer"
 	"github.com/ysugimoto/falco/v2/parser"
+	"verif/mc/engine"
 	"verif/mc/gen"
 )
 
 func main() {
+	if len(os.Args) > 1 && os.Args[1] == "seeds" {
+		h := sha1.New()
+		n := 0
+		engine.Explore(0, 0, func(c *engine.C) {
+			root := gen.G{C: c}.Program(1)
+			src := gen.Source(root)
+			vcl, err := parser.New(lexer.NewFromString(src)).ParseVCL()
+			if err != nil {
+				return
+			}
+			b, err := codec.NewEncoder().Encodes(vcl.Statements)
+			if err != nil {
+				return
+			}
+			n++
+			h.Write(b)
+			fmt.Printf("%d %x %q\n", n, sha1.Sum(b), src[:10])
+		})
+		fmt.Printf("%d %x\n", n, h.Sum(nil))
+		if len(os.Args) > 2 {
+			return
+		}
+		// disturb the pools with other encodes, then do it again
+		engine.Explore(2, 0, func(c *engine.C) {
+			root := gen.G{C: c}.Program(1)
+			vcl, err := parser.New(lexer.NewFromString(gen.Source(root))).ParseVCL()
+			if err != nil {
+				return
+			}
+			codec.NewEncoder().Encodes(vcl.Statements)
+			for _, st := range vcl.Statements {
+				codec.NewEncoder().Encode(st)
+			}
+		})
+		os.Args = append(os.Args, "again")
+		main()
+		return
+	}
 	b, _ := io.ReadAll(os.Stdin)
 	vcl, err := parser.New(lexer.NewFromString(string(b))).ParseVCL()
 	if err != nil {
